@@ -6,6 +6,8 @@
 #include <sys/time.h>
 #include "monoclock.h"
 #include "ev_monoclock.h"
+int __VERIFIER_nondet_int(void);
+long __VERIFIER_nondet_long(void);
 struct timeval g_mc_now;
 unsigned g_mc_calls;
 int
